@@ -1,4 +1,5 @@
 import ArcaModel.Props.C03
+import ArcaModel.Lemmas.PathLeads
 /-
   C17  A rejection names the offending element: the error is a constraint error whose path is the
        sequence of property names, list indices and map keys from the root to the element.
@@ -275,5 +276,248 @@ theorem C17_oneof_passthrough (x : Ext) (fuel : Nat) (env : Env) (intKey : Bool)
 #print axioms C17_presence_rule
 #print axioms C17_obj_undeclared_key
 #print axioms C17_oneof_passthrough
+
+/-! ### the composed statement: every rejection's path leads to the fault
+
+The definitions are in `Lemmas/PathLeads.lean`:
+
+* `Pos` - a position: operation, enclosing scope's objects, sub-schema, sub-value;
+* `PathStep x p segs q` - one schema level at `p` hands `q`'s value to `q`'s schema under the segments
+  `segs` (`[i]`, `[k]`, `{k}`, a property name, `{oneof[k]}` under Validate; NO segment for
+  reference -> target, scope -> root, one-of -> selected member), one constructor per call site of the model;
+* `Leads x p path q` - the reflexive-transitive closure, concatenating the segments;
+* `FailsHere x n q` - `q`, run on its own, returns an error with the EMPTY path, and nothing `q` passes its
+  value to without a segment is rejected: the rejection is `q`'s own;
+* `NamesProperty x n q name` - the object level `q` rejects with the path `[name]` because the declared
+  property `name` violates its presence rule (it is typically ABSENT) or is disabled. This is the
+  one case where the last segment does not lead to a sub-value that is itself at fault, so the
+  conclusion is a disjunction rather than a step of `Leads` to a value that is not there.
+
+No well-formedness hypothesis is needed: on an ill-formed schema (dangling reference, scope
+without root) the model panics, it does not return an error. -/
+
+/-- C17, composed, for Unserialize, Validate and Serialize alike. EVERY error returned for ANY
+    schema, value, externals and budget is located:
+    (1) it is a `ConstraintError` unless its path is empty (see `C17_plain_error_sites` for which
+        errors those are);
+    (2) its path, followed segment by segment from the root, arrives at a position that is
+        rejected by its own level (`FailsHere`) - or all but the last segment arrives at an object
+        that rejects and names, in the last segment, the declared property whose presence rule is
+        violated / which is disabled (`NamesProperty`). -/
+theorem C17_path_leads (x : Ext) (n : Nat) (op : Op) (env : Env) (t : Ty) (v : V) (e : Err) (hop : op ≠ .C)
+    (h : run x n op env t v = .err e) :
+    (e.constraint = true ∨ e.path = []) ∧
+    ((∃ q, Leads x ⟨op, env, t, v⟩ e.path q ∧ FailsHere x n q) ∨
+     (∃ pre name q, e.path = pre ++ [name] ∧ Leads x ⟨op, env, t, v⟩ pre q ∧ NamesProperty x n q name)) := by
+  have hv := verdict_aux x n op env t v e hop h
+  refine ⟨?_, hv.1⟩
+  rcases hv.2 with hc | ⟨hp, _⟩
+  · exact Or.inl hc
+  · exact Or.inr hp
+
+/-- C17 for Unserialize: a rejection of raw input is a constraint error (unless its path is
+    empty) whose path leads, segment by segment, to the sub-value its own sub-schema rejects. -/
+theorem C17_path_leads_U (x : Ext) (n : Nat) (env : Env) (t : Ty) (v : V) (e : Err)
+    (h : run x n .U env t v = .err e) :
+    (e.constraint = true ∨ e.path = []) ∧
+    ((∃ q, Leads x ⟨.U, env, t, v⟩ e.path q ∧ FailsHere x n q) ∨
+     (∃ pre name q, e.path = pre ++ [name] ∧ Leads x ⟨.U, env, t, v⟩ pre q ∧ NamesProperty x n q name)) :=
+  C17_path_leads x n .U env t v e (by simp) h
+
+/-- C17 for Validate (native values; the one-of level contributes the segment `{oneof[key]}`). -/
+theorem C17_path_leads_V (x : Ext) (n : Nat) (env : Env) (t : Ty) (v : V) (e : Err)
+    (h : run x n .V env t v = .err e) :
+    (e.constraint = true ∨ e.path = []) ∧
+    ((∃ q, Leads x ⟨.V, env, t, v⟩ e.path q ∧ FailsHere x n q) ∨
+     (∃ pre name q, e.path = pre ++ [name] ∧ Leads x ⟨.V, env, t, v⟩ pre q ∧ NamesProperty x n q name)) :=
+  C17_path_leads x n .V env t v e (by simp) h
+
+/-- C17 for Serialize (the position arrived at may be a Validate position: lists and maps
+    validate every element before serializing it). -/
+theorem C17_path_leads_S (x : Ext) (n : Nat) (env : Env) (t : Ty) (v : V) (e : Err)
+    (h : run x n .S env t v = .err e) :
+    (e.constraint = true ∨ e.path = []) ∧
+    ((∃ q, Leads x ⟨.S, env, t, v⟩ e.path q ∧ FailsHere x n q) ∨
+     (∃ pre name q, e.path = pre ++ [name] ∧ Leads x ⟨.S, env, t, v⟩ pre q ∧ NamesProperty x n q name)) :=
+  C17_path_leads x n .S env t v e (by simp) h
+
+/-- WHICH errors are not `ConstraintError`s. If the returned error is a plain one, then its path is
+    empty and, following references / the scope root / the selected one-of member from the root
+    (no segment), one arrives at one of exactly three sites (`PlainSite`) which itself returns the
+    plain error: an any-schema (value of a defined integer or float32 type, integer beyond
+    int64), a one-of unserializing `nil`, or the single-property shorthand of an object. Below a
+    property, index or key every error is a constraint error. -/
+theorem C17_plain_error_sites (x : Ext) (n : Nat) (op : Op) (env : Env) (t : Ty) (v : V) (e : Err) (hop : op ≠ .C)
+    (h : run x n op env t v = .err e) (hc : e.constraint = false) :
+    e.path = [] ∧ ∃ q, Leads x ⟨op, env, t, v⟩ [] q ∧ q.run x n = .err ⟨false, []⟩ ∧ PlainSite q := by
+  rcases (verdict_aux x n op env t v e hop h).2 with hc' | hr
+  · rw [hc] at hc'; cases hc'
+  · exact hr
+
+/-- The path never names an element that is fine: a position blamed by `FailsHere` is rejected when
+    its sub-schema is run on its sub-value alone - with the empty path - and so is every object
+    blamed by `NamesProperty`, with exactly the property's name as path. (Immediate from the
+    definitions; stated so that the reader sees it.) -/
+theorem C17_blamed_is_rejected (x : Ext) (n : Nat) (q : Pos) :
+    (FailsHere x n q → ∃ c, run x n q.op q.env q.ty q.val = .err ⟨c, []⟩) ∧
+    (∀ name, NamesProperty x n q name → run x n q.op q.env q.ty q.val = .err ⟨true, [name]⟩) :=
+  ⟨fun h => h.1, fun _ h => h.1⟩
+
+/-- The blamed level is never a mere pass-through: a reference or a scope is never the position
+    `FailsHere` holds of (their error is always their target's). -/
+theorem C17_blamed_not_passthrough (x : Ext) (n : Nat) (q : Pos) (h : FailsHere x n q) :
+    (∀ id, q.ty ≠ .ref id) ∧ (∀ objs root, q.ty ≠ .scope objs root) := by
+  obtain ⟨op, env, t, v⟩ := q
+  obtain ⟨⟨c, hc⟩, hfree⟩ := h
+  constructor
+  · intro id ht
+    simp only at ht
+    subst ht
+    cases n with
+    | zero => simp [Pos.run, run] at hc
+    | succ n =>
+      simp only [Pos.run, run] at hc
+      split at hc
+      · simp at hc
+      · rename_i o hl
+        exact hfree _ (.ref hl) n _ hc
+  · intro objs root ht
+    simp only at ht
+    subst ht
+    cases n with
+    | zero => simp [Pos.run, run] at hc
+    | succ n =>
+      simp only [Pos.run, run] at hc
+      split at hc
+      · simp at hc
+      · rename_i o hl
+        exact hfree _ (.scope hl) n _ hc
+
+theorem errOf_eq_some {α} {o : Out α} {e : Err} (h : errOf o = some e) : o = .err e := by
+  cases o <;> simp [errOf] at h
+  rw [h]
+
+/-! non-vacuity: scope -> object -> list of (referenced) objects -> map -> bounded int, one planted
+    fault: the second item's `m["k"]` is 50, above the maximum 10 -/
+
+def c17X : Ext := ⟨fun _ => none, fun _ => "", fun _ => true, fun _ _ => true⟩
+
+def c17Root : Ty := .obj "Root" [("items", .mk (.list (.ref "Item") none none) true [] [] [] none false)]
+
+def c17Objs : Env :=
+  [("Root", c17Root),
+   ("Item", .obj "Item"
+      [("m", .mk (.map (.str none none none) (.int (some 0) (some 10) none) none none) true [] [] [] none false)])]
+
+def c17Schema : Ty := .scope c17Objs "Root"
+
+def c17Item (n : Int) : V := .map .strAny [(.str "m", .map .strAny [(.str "k", .int .int n)])]
+
+def c17Value : V := .map .strAny [(.str "items", .list [c17Item 5, c17Item 50, c17Item 7])]
+
+/-- the model's answer on the planted fault -/
+theorem c17_example_run :
+    run c17X 10 .U [] c17Schema c17Value = .err ⟨true, ["items", "[1]", "m", "[k]"]⟩ :=
+  errOf_eq_some (by decide)
+
+/-- ... and the witness of `C17_path_leads_U` for it, exhibited: the path leads through the scope,
+    the property `items`, index 1, the reference `Item`, the property `m` and the key `k` to the
+    integer schema with bounds [0, 10] on the value 50, which that schema rejects on its own. -/
+example : Leads c17X ⟨.U, [], c17Schema, c17Value⟩ ["items", "[1]", "m", "[k]"]
+      ⟨.U, c17Objs, .int (some 0) (some 10) none, .int .int 50⟩ ∧
+    FailsHere c17X 10 ⟨.U, c17Objs, .int (some 0) (some 10) none, .int .int 50⟩ := by
+  refine ⟨?_, ⟨true, errOf_eq_some (by decide)⟩, by intro r hs; cases hs⟩
+  have l : Leads c17X ⟨.U, [], c17Schema, c17Value⟩
+      ([] ++ (["items"] ++ ([idxSeg 1] ++ ([] ++ (["m"] ++ ([valSeg (.str "k")] ++ []))))))
+      ⟨.U, c17Objs, .int (some 0) (some 10) none, .int .int 50⟩ :=
+    .step (.scope (o := c17Root) rfl) <|
+    .step (.property (m := [("items", .list [c17Item 5, c17Item 50, c17Item 7])]) (d := .list _)
+      (p := .mk (.list (.ref "Item") none none) true [] [] [] none false) rfl (by simp) rfl) <|
+    .step (.listItem (xs := [c17Item 5, c17Item 50, c17Item 7]) (i := 1) (a := c17Item 50) rfl rfl (Or.inl rfl)) <|
+    .step (.ref (o := .obj "Item" _) rfl) <|
+    .step (.property (m := [("m", .map .strAny [(.str "k", .int .int 50)])]) (d := .map .strAny _)
+      (p := .mk (.map (.str none none none) (.int (some 0) (some 10) none) none none) true [] [] [] none false)
+      rfl (by simp) rfl) <|
+    .step (.mapValue (sh := .strAny) (kvs := [(.str "k", .int .int 50)]) (k := .str "k") (a := .int .int 50)
+      rfl (by simp) (Or.inl rfl)) .here
+  have hp : ([] ++ (["items"] ++ ([idxSeg 1] ++ ([] ++ (["m"] ++ ([valSeg (.str "k")] ++ [])))))) =
+      ["items", "[1]", "m", "[k]"] := by decide
+  rw [hp] at l
+  exact l
+
+/-- the theorem applied to the example -/
+example :
+    (∃ q, Leads c17X ⟨.U, [], c17Schema, c17Value⟩ ["items", "[1]", "m", "[k]"] q ∧ FailsHere c17X 10 q) ∨
+    (∃ pre name q, ["items", "[1]", "m", "[k]"] = pre ++ [name] ∧ Leads c17X ⟨.U, [], c17Schema, c17Value⟩ pre q ∧
+      NamesProperty c17X 10 q name) :=
+  (C17_path_leads_U _ _ _ _ _ _ c17_example_run).2
+
+/-! non-vacuity of the second disjunct: the required property `items` is ABSENT; the error names
+    it, and what the path leads to (all but its last segment: through the scope) is the object -/
+
+def c17Empty : V := .map .strAny []
+
+theorem c17_example_missing : run c17X 10 .U [] c17Schema c17Empty = .err ⟨true, ["items"]⟩ :=
+  errOf_eq_some (by decide)
+
+example : Leads c17X ⟨.U, [], c17Schema, c17Empty⟩ [] ⟨.U, c17Objs, c17Root, c17Empty⟩ ∧
+    NamesProperty c17X 10 ⟨.U, c17Objs, c17Root, c17Empty⟩ "items" := by
+  refine ⟨.step (segs := []) (path := []) (.scope rfl) .here, errOf_eq_some (by decide), "Root", _,
+    .mk (.list (.ref "Item") none none) true [] [] [] none false, [], rfl, by simp, rfl, Or.inl ?_⟩
+  intro hr
+  simp [RuleHolds, hasKey, lookupS, PropT.required] at hr
+
+/-! ### data-mode ValidateCompatibility: the path is truncated at the first object property -/
+
+/-- C17 for data-mode ValidateCompatibility, PARTIAL - and the missing part is false of the model.
+    Proved: every rejection is a constraint error unless its path is empty, and its path leads
+    (`Leads`, same segments) to a position that (a) fails on its own, or (b) is an object naming
+    its disabled property in the last segment, or (c) is the VALUE OF AN OBJECT PROPERTY THAT IS
+    REJECTED SOMEWHERE INSIDE (`RejectedBelow`): `PropertySchema.ValidateCompatibility` (and likewise
+    the any-schema, the one-of and the non-map object fallback) put the sub-schema's error into
+    the MESSAGE of a fresh `ConstraintError`, so the segments below the first property are lost.
+    Missing for full strength: in case (c) the path does not reach the offending element. The
+    example below shows that this is how the model (and the code it mirrors) behaves. -/
+theorem C17_path_leads_C_partial (x : Ext) (n : Nat) (env : Env) (t : Ty) (v : V) (e : Err)
+    (h : run x n .C env t v = .err e) :
+    (e.constraint = true ∨ e.path = []) ∧
+    ((∃ q, Leads x ⟨.C, env, t, v⟩ e.path q ∧ FailsHere x n q) ∨
+     (∃ pre name q, e.path = pre ++ [name] ∧ Leads x ⟨.C, env, t, v⟩ pre q ∧ NamesProperty x n q name) ∨
+     (∃ q, Leads x ⟨.C, env, t, v⟩ e.path q ∧ RejectedBelow x n q)) := by
+  obtain ⟨hl, hc⟩ := located_C x n env t v e h
+  refine ⟨hc, ?_⟩
+  rcases hl with (h1 | h2) | h3
+  · exact Or.inl h1
+  · exact Or.inr (Or.inl h2)
+  · exact Or.inr (Or.inr h3)
+
+/-! the truncation is real: the same native value against the same schema - Validate reports the
+    full path to the offending integer, data-mode compatibility only the outer property -/
+
+def c17Nested : Ty :=
+  .obj "A" [("outer", .mk (.obj "B" [("inner", .mk (.int (some 0) (some 10) none) true [] [] [] none false)])
+    true [] [] [] none false)]
+
+def c17NestedVal : V := .map .strAny [(.str "outer", .map .strAny [(.str "inner", .int .int64 50)])]
+
+example : run c17X 10 .V [] c17Nested c17NestedVal = .err ⟨true, ["outer", "inner"]⟩ ∧
+    run c17X 10 .C [] c17Nested c17NestedVal = .err ⟨true, ["outer"]⟩ :=
+  ⟨errOf_eq_some (by decide), errOf_eq_some (by decide)⟩
+
+/- non-vacuity of the hypotheses of `C17_path_leads_S` (Serialize of the native value above) and of
+   `C17_plain_error_sites` (a plain error: a one-of unserializing nil) -/
+example : run c17X 10 .S [] c17Nested c17NestedVal = .err ⟨true, ["outer", "inner"]⟩ := errOf_eq_some (by decide)
+example : run c17X 10 .U [] (.oneOf false "kind" false []) .nil = .err ⟨false, []⟩ := errOf_eq_some (by decide)
+
+#print axioms C17_path_leads
+#print axioms C17_path_leads_U
+#print axioms C17_path_leads_V
+#print axioms C17_path_leads_S
+#print axioms C17_plain_error_sites
+#print axioms C17_path_leads_C_partial
+#print axioms C17_blamed_is_rejected
+#print axioms C17_blamed_not_passthrough
+#print axioms c17_example_run
+#print axioms c17_example_missing
 
 end Arca
